@@ -441,7 +441,8 @@ static void simulate(verif::Run& run, const Cfg& cfg, Judge& J, uint64_t& outcom
                         const double EE = 1e-12;
                         const bool rising = eLow <= EE && eHigh >= -EE && eHigh > eLow, falling = eLow >= -EE && eHigh <= EE && eHigh < eLow;
                         J.note("      listed: handler %d transition %s  e(tLow)=%.3g e(tHigh)=%.3g est=%.15g\n", it->second, Event::eventTriggerString(trans[k]).c_str(), eLow, eHigh, (double)est[k]);
-                        J.check((rising && (wt.mask & 1)) || (falling && (wt.mask & 2)), "listed-event-did-not-cross", [&] { return "handler " + std::to_string(it->second) + " is listed but its witness goes " + verif::fmtd(eLow) + " -> " + verif::fmtd(eHigh) + " across the window (mask " + std::to_string(wt.mask) + ")"; });
+                        J.check(rising || falling, "listed-event-did-not-cross", [&] { return "handler " + std::to_string(it->second) + " is listed but its witness goes " + verif::fmtd(eLow) + " -> " + verif::fmtd(eHigh) + " across the window: no sign change"; });
+                        J.check(!(rising || falling) || (rising && (wt.mask & 1)) || (falling && (wt.mask & 2)), "listed-event-in-unmonitored-direction", [&] { return "handler " + std::to_string(it->second) + " is listed for a " + (rising ? "rising" : "falling") + " transition (" + verif::fmtd(eLow) + " -> " + verif::fmtd(eHigh) + ") but monitors only " + (wt.mask == 1 ? "rising" : "falling"); });
                         J.check((rising && trans[k] == Event::Rising) || (falling && trans[k] == Event::Falling) || (!rising && !falling), "transition-direction-wrong", [&] { return "handler " + std::to_string(it->second) + " transition reported as " + Event::eventTriggerString(trans[k]); });
                         if (k < (int)est.size()) J.check(w[0] < est[k] && est[k] <= w[1], "estimated-event-time-outside-window", [&] { return "estimated time " + verif::fmtd(est[k]) + " outside the window"; });
                     }
